@@ -11,9 +11,14 @@ def main():
                       'Assembly::Common::{LaplaceOperator,IdentityOperator,ForceFunctional}', 'LAFEM::SparseMatrixCSR::ScatterAxpy / DenseVector::ScatterAxpy', 'Trafo::Standard + Space evaluators + Cubature::DynamicFactory (executed as is)']
     chk.assume(*e2prop.E2_ASSUME)
     chk.assume('the statement "equals the integral" is split: here the assembled entries equal the cubature sum of the textbook integrand as exact rational identities; exactness of the cubature rules is C14',
-               'one-cell mesh: scatter/gather across several cells, voxel assemblers (float/double instantiations only), Burgers/defo assemblers and threaded routes are outside this check')
+               'one-cell mesh: scatter/gather across several cells, the voxel assembler drivers around the cell kernel (data handler, colouring, explicit float/double instantiations in .cpp/.cu), Burgers/defo assemblers and threaded routes are outside this check')
     e2prop.run_e2(chk, e2prop.e2_harness_path('c16_e2.cpp'), 'c16_e2', timeout=20 if quick else 300, harness_args=['--bounds', lvl], max_group=1,
                   support=C.FEAT_MIN_SRCS)
+    # voxel slice: the shared host/device cell kernel of the voxel Poisson assembler
+    chk.bounds.append('E2 voxel slice: Kernel::poisson_assembly_kernel (Q2) on ONE quadrilateral with the last 1..2 (thorough: all 4; one hexahedron vertex) vertices symbolic, the others at fixed rational positions (non-affine cell); Gauss-Legendre 2x2 (thorough 3x3)')
+    chk.functions += ['VoxelAssembly::Kernel::poisson_assembly_kernel<SpaceHelper<Q2StandardFE<Hypercube<dim>>, SymReal, Index>>', 'VoxelAssembly::SpaceHelper::{set_coefficients,calc_jac_mat,eval_ref_gradients,trans_gradients}']
+    if C.os.environ.get('C16_SKIP_VOXEL') is None:
+        e2prop.run_e2(chk, e2prop.e2_harness_path('c16v_e2.cpp'), 'c16v_e2', timeout=30 if quick else 300, harness_args=['--bounds', lvl], max_group=1, support=C.FEAT_MIN_SRCS)
     return chk.finish(
         explanation='Partial (stated): the real symbolic/bilinear/linear assemblers and the DomainAssembler job route are executed on one cell with symbolic vertex coordinates; z3 decides as exact identities that classic and job routes agree entry by entry, Laplace rows sum to zero, symmetric forms give symmetric matrices, the mass entries sum to sum_q w_q det J(x_q), scaled/repeated assembly adds onto existing values, and for Lagrange1 that every matrix/vector entry equals an independent cubature sum built from closed-form reference basis functions and the vertex coordinates.',
         rule=e2prop.E2_RULE, trusted=e2prop.E2_TRUSTED)
